@@ -17,6 +17,29 @@ from harness import dfgen as G  # noqa: E402
 PROP = "C03"
 # Clause-by-clause coverage of the property text: clause -> oracle key(s) that judge it <- generator kind(s) that exercise it.
 # Keys are prefixed direct:<stype>: (compute_col_stats called on the series) or stats:<stype>[:target]: (dataset.col_stats).
+# Every raise / assert / try-except / early return / special case / dtype cast of the anchored code (stats.py, the
+# statistics part of Dataset.materialize) : generator kind that reaches it -> oracle key that notices if it is removed,
+# loosened or replaced by a default.
+ERROR_PATHS = [
+    "_flatten: all sequences empty -> empty float array (no second hstack) : sequence_numerical/allempty -> *:sequence_numerical:default, *:raises",
+    "_flatten: np.hstack dtype follows the cells (int64 for lists of Python ints) : sequence_numerical bigint -> *:mean (sum wrap), *:std",
+    "MEAN / STD / QUANTILES: isfinite mask; `not mask.any()` -> NaN : NaN / inf inside sequences, onlyinf / allnan / allmissing columns, +/-inf in every float backing -> *:default, *:mean, *:std, *:quantiles",
+    "MEAN: np.mean accumulates in float64 also for integer data : int64 around 2^62 (sum beyond 2^63), int32, uint8 -> *:mean",
+    "STD: population (ddof 0), no snapping : scales 2^-40 .. 2^40 and 1 + k 2^-30, constant columns -> *:std",
+    "QUANTILES: q list and linear method : every numerical column, ties, even / odd n, single value -> *:quantiles",
+    "COUNT / MULTI_COUNT: value_counts(ascending=False) on the dropna'd series; split_by_sep -> set -> explode -> dropna : ties, duplicated tokens, blank / missing cells -> *:count, *:order, *:extra, *:missing, *:dup",
+    "YEAR_RANGE / NEWEST / OLDEST / MEDIAN: iloc[-1], iloc[0], iloc[len // 2] of the sorted series; to_tensor nan_to_num(-1).to(long) : unsorted, tied, even / odd counts -> *:year_range, *:oldest_time, *:newest_time, *:median_time",
+    "EMB_DIM: len(ser.iloc[0]) (position, not label) : offset / permuted / string / duplicated index labels -> *:emb_dim",
+    "compute_col_stats: inf mask for numerical (any float backing) : +/-inf cells -> *:mean ...; TypeError for a non-numeric numerical column : retry histories (first attempt), otherwise outside the quantifier",
+    "compute_col_stats: to_datetime(errors='coerce') before the all-null test; sort_values; `isnull().all()` -> defaults : allgarbage / allmissing / single -> *:default, *:raises",
+    "compute_col_stats: dropna before compute : missing cells in every stype -> *:count, *:median_time, *:mean",
+    "materialize: early return when already materialized : not a statistics attempt (by design); path given and file exists -> load : cache-stats",
+    "materialize: loop over col_to_stype overwriting _col_stats (shared dict, partial after a raise) : histories retry / colselect -> every key on the final frame, Coq history_ok",
+    "materialize: binary-target re-sort only when len(index) == 2 and col is the categorical target : binary / multi-class / numerical targets -> stats:categorical:target:target-order, :order",
+    "materialize: split_col plays no role in the statistics : split kinds -> *:mean ..., frame-columns, stats-columns",
+    "_update_col_stats: only when an embedding feature exists; offset differences; int() cast : embedding + stub children with different widths -> stats:*:emb_dim, Coq update_col_stats_ok",
+]
+
 CLAUSES = [
     "mean / population std / five quantiles over the non-missing finite values, numerical and sequence columns -> "
     "*:mean, *:std, *:quantiles, *:keys <- numerical/{usable,single} x {dyadic,int,const,skew,ties,coarse} x inf/NaN rates "
@@ -113,6 +136,14 @@ SCALES = [(10, 0), (2, -40), (1, -30), (2, 40), (1, 30), (2, "offset")]
 EPS = {"float32": 2.0 ** -23, "Float32": 2.0 ** -23, "float16": 2.0 ** -10}
 
 
+def col_eps(col):
+    """0: statistics compared exactly; > 0: the column's values are not exactly summable in float64 (reduced-precision
+    float types, int64 values beyond 2^53): compared within 4 eps of the largest magnitude"""
+    if col.get("bigint"):
+        return 2.0 ** -50
+    return EPS.get(col.get("np_dtype"), 0.0)
+
+
 def rescale(rng, vals, scale):
     if scale == 0:
         return vals
@@ -129,7 +160,21 @@ def gen_num_col(rng, name, n, for_target=False, shared=None):
     col = base_col(name, "numerical")
     col["dtype"] = "float"
     shape = "usable" if for_target else rng.wpick([(12, "usable"), (2, "single"), (1, "allmissing"), (1, "onlyinf")])
-    backing = rng.wpick([(12, "float64"), (2, "float32"), (2, "float16"), (2, "Float64"), (2, "Float32")])
+    backing = rng.wpick([(12, "float64"), (2, "float32"), (2, "float16"), (2, "Float64"), (2, "Float32"),
+                         (2, "bigint"), (1, "int32"), (1, "uint8")])
+    if backing in ("bigint", "int32", "uint8"):
+        # integer-backed columns: no missing cells, no inf; `bigint`: int64 values around 2^62 whose TOTAL passes 2^63
+        # (exactly representable as floats: multiples of 1024), e.g. nanosecond-epoch ids
+        if backing == "bigint":
+            vals = [float(2 ** 52 - rng.randint(0, 4000)) * 1024 * rng.pick([1, 1, 1, -1] if rng.chance(0.2) else [1])
+                    for _ in range(n)]
+        elif backing == "int32":
+            vals = [float(rng.randint(-2 ** 30, 2 ** 30)) for _ in range(n)]
+        else:
+            vals = [float(rng.randint(0, 255)) for _ in range(n)]
+        col.update(cells=vals, gen="usable", scale=0, np_dtype="int64" if backing == "bigint" else backing,
+                   bigint=backing == "bigint")
+        return col
     if backing in ("float32", "float16", "Float32"):
         vals = gen_numbers(rng, n, rng.pick(["coarse", "coarse", "const0", "int8"]))   # exactly representable in float16
         col["scale"] = 0
@@ -166,7 +211,15 @@ def gen_num_col(rng, name, n, for_target=False, shared=None):
 
 def gen_seq_col(rng, name, n, shared=None):
     col = base_col(name, "sequence_numerical")
-    shape = rng.wpick([(10, "usable"), (2, "allempty"), (2, "allnan"), (1, "allmissing"), (1, "single")])
+    shape = rng.wpick([(10, "usable"), (2, "allempty"), (2, "allnan"), (1, "allmissing"), (1, "single"), (2, "bigint")])
+    if shape == "bigint":
+        # every non-missing cell is a non-empty list of large Python ints (np.hstack gives an int64 array)
+        cells = [None if rng.chance(0.2) else [(2 ** 52 - rng.randint(0, 4000)) * 1024 for _ in range(rng.randint(1, 4))]
+                 for _ in range(n)]
+        if all(c is None for c in cells):
+            cells[0] = [2 ** 62, 2 ** 62 - 1024, 2 ** 62 - 4096]
+        col.update(cells=cells, nan_kind="none", gen="usable", scale=0, bigint=True)
+        return col
     vals_kind = rng.wpick(NUM_KINDS)
     col["scale"] = rng.wpick(SCALES)
     mp = rng.pick([0.0, 0.2, 0.5])
@@ -818,7 +871,7 @@ def check_col_stats(case, col, st, is_target_resorted):
     if isinstance(st, dict) and "exc" in st:
         return ("raises", f"computing the statistics raised {st['exc']}: {st.get('msg')}", None, st)
     if s in ("numerical", "sequence_numerical"):
-        return check_num(col["name"], "", st, ref_num_stats(col), EPS.get(col.get("np_dtype"), 0.0))
+        return check_num(col["name"], "", st, ref_num_stats(col), col_eps(col))
     if s == "categorical":
         return check_count(st, "COUNT", cat_values(col), is_target_resorted)
     if s == "multicategorical":
@@ -1017,6 +1070,15 @@ def stats(cases, obss):
             d["call_" + k][str(ct.get(k))] = d["call_" + k].get(str(ct.get(k)), 0) + 1
         d["int64_numerical_columns"] = d.get("int64_numerical_columns", 0) + \
             sum(1 for x in c["cols"] if x.get("np_dtype") == "int64")
+        d.setdefault("integer_backings", {})
+        for x in c["cols"]:
+            if x.get("bigint"):
+                k = x["stype"] + ":bigint"
+                tot = sum(usable_numbers(x))
+                k += ":sum>2^63" if abs(tot) >= 2 ** 63 else ""
+                d["integer_backings"][k] = d["integer_backings"].get(k, 0) + 1
+            elif x.get("np_dtype") in ("int32", "uint8", "int64"):
+                d["integer_backings"][x["np_dtype"]] = d["integer_backings"].get(x["np_dtype"], 0) + 1
         d.setdefault("float_backing_with_inf", {})
         d.setdefault("scales", {})
         for x in c["cols"]:
@@ -1105,6 +1167,9 @@ def sanity(cases, obss):
         for k in ks:
             if (d.get(grp) or {}).get(k, 0) == 0:
                 probs.append(f"{grp} = {k} never drawn")
+    for k in ("numerical:bigint:sum>2^63", "sequence_numerical:bigint:sum>2^63", "int32", "uint8", "int64"):
+        if (d.get("integer_backings") or {}).get(k, 0) == 0:
+            probs.append(f"integer backing {k} never drawn")
     for bk in ("float64", "float32", "float16", "Float64", "Float32"):
         if (d.get("float_backing_with_inf") or {}).get(bk, 0) == 0:
             probs.append(f"no {bk} numerical column holding +/-inf next to finite values")
@@ -1203,9 +1268,10 @@ def coq_col(case, obs, col, extra):
         if set(st) != {"MEAN", "STD", "QUANTILES"} or not isinstance(st["QUANTILES"], list):
             return None
         o = f"ONum {cdbl(st['MEAN'])} {cdbl(st['STD'])} {C.clist(st['QUANTILES'], cdbl)}"
-        if col.get("np_dtype") in EPS:
-            # reduced-precision backing: only which statistics are NaN is compared in Coq
-            extra.append(f"col_shape_ok {C.clist(col['cells'], cnum)} {cdbl(st['MEAN'])} {cdbl(st['STD'])} "
+        if col_eps(col):
+            # reduced-precision backing / int64 beyond 2^53: only which statistics are NaN is compared in Coq
+            flat = col["cells"] if s == "numerical" else [x for cell in col["cells"] if cell is not None for x in cell]
+            extra.append(f"col_shape_ok {C.clist(flat, cnum)} {cdbl(st['MEAN'])} {cdbl(st['STD'])} "
                          f"{C.clist(st['QUANTILES'], cdbl)}")
             return "skip", None
         return c, o
